@@ -182,4 +182,35 @@ theorem latch_counts (s : Svc) (hc : Core s) : s.runClosed ≤ 1 ∧ s.termClose
   · rw [hc.runC]; split <;> omega
   · rw [hc.termC]; split <;> omega
 
+theorem waiter_stays (s : Svc) (hc : Core s) (more : List Ev) :
+    (awaitRunning s ≠ none → awaitRunning (run s more) ≠ none) ∧
+    (awaitTerminated s ≠ none → awaitTerminated (run s more) ≠ none ∧ (run s more).st = s.st) := by
+  have hc2 := core_run s more hc
+  have l1 := latch_facts s hc
+  have l2 := latch_facts _ hc2
+  have hm := rank_mono s hc more
+  refine ⟨fun h hn => ?_, fun h => ?_⟩
+  · rcases l2.1.mp hn with h2 | h2 <;> rw [h2] at hm <;>
+      (apply h; rw [l1.1]; revert hm; cases s.st <;> simp [SState.rank])
+  · have ht : s.st.terminal = true := by
+      cases hx : s.st.terminal
+      · exact absurd (l1.2.2.1.mpr hx) h
+      · rfl
+    obtain ⟨hst, _⟩ := terminal_stable s hc ht more
+    refine ⟨fun hn => ?_, hst⟩
+    have := l2.2.2.1.mp hn
+    rw [hst, ht] at this; cases this
+
+/-- a busy listener's goroutine cannot take the next notification. -/
+theorem deliver_busy_noop (ls : List Lsn) (id : Nat) (hb : ∀ l ∈ ls, l.id = id → l.busy = true) :
+    deliverTo id ls = ls := by
+  induction ls with
+  | nil => rfl
+  | cons l ls ih =>
+    simp only [deliverTo]
+    split
+    · rename_i hc
+      rw [if_pos (hb l (List.mem_cons_self ..) hc.1)]
+    · rw [ih (fun x hx => hb x (List.mem_cons_of_mem _ hx))]
+
 end PfC17
